@@ -236,7 +236,12 @@ impl<'a, H: HashAlgorithm> Exec<'a, H> {
     /// (After an injected failure the call returns early while other workers of the same sync are
     /// still going; dropping the handle under them makes them panic on the closed I/O pool, which
     /// nomt swallows but the scheduler cannot unwind through.)
-    pub fn quiesce(&self) {
+    pub fn quiesce(&self) { quiesce() }
+}
+
+/// See [`Exec::quiesce`].
+pub fn quiesce() {
+    {
         use std::sync::atomic::Ordering;
         let mut last = simrt::SYNC_OPS.load(Ordering::Relaxed);
         let mut calm = 0u32;
@@ -246,7 +251,9 @@ impl<'a, H: HashAlgorithm> Exec<'a, H> {
             if now == last { calm += 1; if calm >= 4000 { break; } } else { calm = 0; last = now; }
         }
     }
+}
 
+impl<'a, H: HashAlgorithm> Exec<'a, H> {
     fn swallowed(&mut self) -> R<()> {
         let delivered: Vec<String> = self.disk.delivered_errors().into_iter().filter(|(st, _)| *st == self.step).map(|x| x.1).collect();
         if !delivered.is_empty() {
